@@ -168,7 +168,8 @@ def model_op(step, ctx):
             return "(compile () false true ())"
         ms = " ".join("(%d %d %s)" % (h, len(s["args"]), b(s["ret"] == "out")) for h, s in r["methods"])
         bare = "%d" % r["bare"][1] if isinstance(r["bare"], list) else ""
-        return "(router (%s) (%s) %s)" % (ms, bare, b(fp))
+        bad = [h for h, s in r["methods"] if step["version"] < 7 and body_uses(s["body"], ("v7",))]
+        return "(router (%s) (%s) %s (%s))" % (ms, bare, b(fp), " ".join(str(h) for h in bad))
     if k == "deep_seq":
         return "(compile () false true ())"
     if k == "noop":
@@ -724,7 +725,7 @@ class Gen:
         elif flavour == "router_none":
             bare = "none"
         steps.append({"k": "router_new", "r": rid, "name": "c11r%d" % rid, "bare": bare})
-        nm = r.randint(1, 4) if flavour != "router_single" else 1
+        nm = r.randint(1, 4) if flavour not in ("router_single", "router_failfirst") else 1
         methods = []
         shared = []
         if flavour == "router_helper":
@@ -739,6 +740,8 @@ class Gen:
             if flavour == "router_void":
                 ret = "void"
             args = ["abi"] * r.randint(0, 3)
+            if flavour == "router_failfirst":
+                args = ["abi"] * r.randint(1, 3)
             rec = {"kind": "abi", "ret": ret, "args": args, "name": "c11m%d" % h}
             feat = {"max_vars": 2, "abi": r.random() < 0.6, "loops": r.random() < 0.5}
             if flavour == "router_nested" and i == 0:
@@ -752,6 +755,12 @@ class Gen:
             methods.append((h, rec))
             steps.append({"k": "router_method", "r": rid, "h": h, "sub": rec})
         configs = [{"version": 6}, {"version": 8}, {"version": r.choice([7, 9, 10])}, {"version": 8, "opt": {"frame_pointers": False}}]
+        if flavour == "router_failfirst":
+            # the (only) method uses an op of version 7: compile_program(version=6) fails AFTER the method's declaration was
+            # evaluated; later successful compilations of the same router object must equal those of a fresh one
+            h, rec = methods[0]
+            rec["body"]["stmts"].append(["pop", ["v7", ["abiarg", 0]]])
+            configs = [{"version": 6}, {"version": 7}, {"version": 8, "opt": {"frame_pointers": False}}, {"version": 8}]
         return {"kind": "router", "rid": rid, "flavour": flavour, "steps_def": steps, "configs": configs, "methods": methods,
                 "bare": bare, "subs": methods + shared + ([helper] if helper else [])}
 
@@ -871,11 +880,17 @@ class Gen:
             return [{"k": "router_new", "r": rid, "name": "c11bad%d" % rid, "bare": "approve"}] + \
                    [{"k": "router_method", "r": rid, "h": hh, "sub": rr} for hh, rr in order] + \
                    [{"k": "router_compile", "r": rid, "version": r.choice([6, 8, 8])}]
+        if cls == "router_fail_then_ok":
+            it = self.router("router_failfirst")
+            steps = list(it["steps_def"])
+            for v in ([6, 7] if r.random() < 0.7 else [6, 6, 8, 7]):
+                steps.append({"k": "router_compile", "r": it["rid"], "version": v})
+            return steps
         raise AssertionError(cls)
 
 
-FAIL_CLASSES = ["body_raises_fp", "body_raises_scratch", "body_raises_late_in_body", "abi_body_raises", "bad_return", "body_typeerr",
+FAIL_CLASSES = ["router_fail_then_ok", "body_raises_fp", "body_raises_scratch", "body_raises_late_in_body", "abi_body_raises", "bad_return", "body_typeerr",
                 "build_typeerr", "bad_version", "fp_below_8", "op_above_version_main", "op_above_version_sub", "uninit_load",
                 "dup_reserved", "recursive_byref", "too_many_slots", "deep_seq", "router_method_raises"]
 PROG_FLAVOURS = ["flat", "flat_old", "subs", "recursive", "abi_main", "abi_subs", "storeinto_nested", "tmpl", "probe", "maybe", "nested"]
-ROUTER_FLAVOURS = ["router_plain", "router_bare_sub", "router_none", "router_single", "router_helper", "router_void", "router_nested"]
+ROUTER_FLAVOURS = ["router_failfirst", "router_plain", "router_bare_sub", "router_none", "router_single", "router_helper", "router_void", "router_nested"]
